@@ -256,6 +256,8 @@ Section Dispatch.
         let fid := target_face c a in
         if explicit_face a && negb (face_exists st fid) then
           ctl st vs c RIBModule_register_st_Face_does_not_exist no_args
+        else if match a_exp a with Some e => k_RIBModule_register_max_expiration <? e | None => false end then
+          ctl st vs c RIBModule_register_st_ControlParameters_is_incorrect no_args
         else
           let origin := oget (a_origin a) k_RIBModule_register_default_origin in
           let cost := oget (a_cost a) k_RIBModule_register_default_cost in
@@ -392,7 +394,8 @@ Section Dispatch.
       match a_strategy a with
       | None => ctl st vs c StrategyChoiceModule_set_st_ControlParameters_is_incorrect no_args
       | Some sn =>
-        if negb (is_prefix strategy_prefix sn) then ctl st vs c StrategyChoiceModule_set_st_Unknown_strategy no_args
+        if negb (is_prefix strategy_prefix sn) || (length sn <=? length strategy_prefix)%nat then
+          ctl st vs c StrategyChoiceModule_set_st_Unknown_strategy no_args
         else
         match nth_error sn (length strategy_prefix) with
         | None => Panic                                   (* params.Strategy.Name[len(s.strategyPrefix)] *)
@@ -401,9 +404,14 @@ Section Dispatch.
           | None => ctl st vs c StrategyChoiceModule_set_st_Unknown_strategy no_args
           | Some avail =>
             match max_version avail with
-            | None => Panic                               (* availableVersions[0] *)
+            | None => ctl st vs c StrategyChoiceModule_set_st_Unknown_strategy no_args    (* len(availableVersions) == 0 *)
             | Some newest =>
-              let accept (sn' : name) :=
+              if (length strategy_prefix + 2 <? length sn)%nat then
+                ctl st vs c StrategyChoiceModule_set_st_Strategy_parameters_are_not_supported no_args
+              else
+              (* the canonical instance name <prefix>/<strategy>/<version> is what gets installed and echoed *)
+              let accept (v : N) :=
+                let sn' := firstn (length strategy_prefix + 1) sn ++ [version_comp v] in
                 Ok (set_strat st (strat_set (s_strat st) nm sn')) vs
                    (RCtl StrategyChoiceModule_set_st_OK
                       (Build_cargs (Some nm) None None None None None None None (Some sn') None None None None None)
@@ -415,10 +423,10 @@ Section Dispatch.
                 else match parse_nat (cval vc) with
                      | None => ctl st vs c StrategyChoiceModule_set_st_Unknown_strategy_version no_args
                      | Some v =>
-                       if existsb (N.eqb v) avail then accept sn
+                       if existsb (N.eqb v) avail then accept v
                        else ctl st vs c StrategyChoiceModule_set_st_Unknown_strategy_version no_args
                      end
-              | None => accept (sn ++ [version_comp newest])
+              | None => accept newest
               end
             end
           end
@@ -457,6 +465,8 @@ Section Dispatch.
     with_params st vs c ContentStoreModule_config_st_ControlParameters_is_incorrect (fun a =>
       if xorb (isSome (a_flags a)) (isSome (a_mask a)) then
         ctl st vs c ContentStoreModule_config_st_ControlParameters_are_incorrect no_args
+      else if match a_capacity a with Some cap => k_ContentStoreModule_config_max_capacity <? cap | None => false end then
+        ctl st vs c ContentStoreModule_config_st_ControlParameters_is_incorrect no_args
       else
         let st' := match a_capacity a with
                    | Some cap => set_cs st (wrap64 (Z.of_N cap))      (* table.SetCsCapacity(int(Capacity)) *)
@@ -506,6 +516,8 @@ Section Dispatch.
                 (Some (f_mtu f)).
 
   Definition flags_mask_mismatch (a : cargs) : bool := xorb (isSome (a_flags a)) (isSome (a_mask a)).
+  Definition mtu_too_small (floor : N) (a : cargs) : bool :=
+    match a_mtu a with Some m => m <? floor | None => false end.
 
   Definition face_create (st : state) (vs : vers) (c : cmd) : outcome :=
     with_params st vs c FaceModule_create_st_ControlParameters_is_incorrect (fun a =>
@@ -514,6 +526,7 @@ Section Dispatch.
       | Some u =>
         if negb (u_canon u) then ctl st vs c FaceModule_create_st_URI_could_not_be_canonized no_args
         else if flags_mask_mismatch a then ctl st vs c FaceModule_create_st_Incomplete_Flags_Mask_combination no_args
+        else if mtu_too_small k_FaceModule_create_min_mtu a then ctl st vs c FaceModule_create_st_MTU_is_too_small no_args
         else match u_conflict u with
         | Some id =>
           match face_get (s_faces st) id with
@@ -559,7 +572,7 @@ Section Dispatch.
           ctl st vs c FaceModule_update_st_Face_cannot_be_updated_via_management only_id
         else
           let pers_ok := match a_pers a with Some p => pers_valid f p | None => true end in
-          if negb pers_ok || flags_mask_mismatch a then
+          if negb pers_ok || flags_mask_mismatch a || mtu_too_small k_FaceModule_update_min_mtu a then
             ctl st vs c FaceModule_update_st_ControlParameters_are_incorrect no_args
           else
             if negb (f_ndnlp f) then Panic          (* selectedFace.( *face.NDNLPLinkService ) *)
@@ -614,7 +627,7 @@ Section Dispatch.
     if (length (c_name c) <? plen + 3)%nat then Ok st vs RNone
     else match c_qdec c with
          | QErr => Ok st vs RNone
-         | QNil => Panic                                   (* filter := filterV.Val; filter.FaceId *)
+         | QNil => Ok st vs RNone                          (* filterV.Val == nil *)
          | QOk q => Ok st (bump_face vs)
                        (RData (NQuery (c_name c)) (v_face vs) (DFaces (map face_stat (filter (face_matches q) (s_faces st)))))
          end.
